@@ -214,9 +214,27 @@ def run(ctx):
             per[sm or "mem"] = add(case, lines)
         post.append(("rot", per, kind, resolved, n, dirs, m0, variants))
 
+    # ---------------- 5. a veering sea: consecutive frequency bins whose moments differ in the fourth decimal only
+    for q in range(ctx.n(3, 30)):
+        n = rng.choice([24, 36])
+        L = rng.choice([50, 70])
+        sig0 = rng.uniform(max(2.0, 1.6 * 360.0 / n) + 8.0, 40.0)
+        mu0 = rng.uniform(0, 2 * math.pi)
+        veer = math.radians(rng.choice([0.03, 0.04, -0.04]))          # per bin: every moment moves by < 1e-3
+        ms = [[float(v) for v in G.vm_moments(mu0 + veer * i, sig0)] for i in range(L)]
+        cols = [[m[c] for m in ms] for c in range(4)]
+        ids = {}
+        for sm in ("scipy", "newton"):
+            ids[sm] = add({"op": "est", "method": "mem2", "sm": sm, "dirs": G.fl(G.grid_deg(n)), "shape": [L],
+                           "a1": G.fl(cols[0]), "b1": G.fl(cols[1]), "a2": G.fl(cols[2]), "b2": G.fl(cols[3])}, [])[0]
+        post.append(("veer", ids, n, ms))
+
     impl = ctx.impl("C06.py", {"cases": cases})["results"]
     mod = ctx.model(mlines)
     for it in post:
+        if it[0] == "veer":
+            eval_veer(ctx, it, impl, stats)
+            continue
         if it[0] == "fn":
             eval_fn(ctx, it, impl, mod, stats)
         elif it[0] == "chol":
@@ -415,6 +433,36 @@ def eval_hard_equivariance(ctx, post, impl, mod, stats):
                 dd = G.norm([a - b for a, b in zip(mi, me)])
                 upd(stats, "hard cases: equivariance defect (four-moment norm) on fragile paths", dd)
                 ctx.tally("hard-equivariance:fragile(measured only)")
+
+
+def eval_veer(ctx, it, impl, stats):
+    """fidelity bin by bin along one spectrum whose direction veers slowly with frequency"""
+    _, ids, n, ms = it
+    dirs = G.grid_deg(n)
+    step = 360.0 / n
+    for sm, i in ids.items():
+        im = impl[i]
+        rep0 = {"op": "estimate_directional_distribution", "method": "mem2", "solution_method": sm, "direction": dirs,
+                "shape": [len(ms)], "a1": [m[0] for m in ms], "b1": [m[1] for m in ms], "a2": [m[2] for m in ms],
+                "b2": [m[3] for m in ms], "note": "one spectrum, mean direction veering slowly with frequency"}
+        if err_of(im):
+            ctx.oracle_fail("%s raised %s: %s" % (sm, im["error"], im["msg"]), rep0)
+            continue
+        out = G.unfl(im["out"])
+        worst = (0.0, 0)
+        for e, m in enumerate(ms):
+            D = out[e * n:(e + 1) * n]
+            ctx.count(["veer", sm, n, m], True)
+            err = G.norm([a - b for a, b in zip(G.moments_of(D, dirs, step), m)])
+            if not err < float("inf"):
+                err = float("inf")
+            if err > worst[0]:
+                worst = (err, e)
+        ctx.tally("veering spectrum:%s" % sm)
+        upd(stats, "fidelity %s (veering spectrum)" % sm, worst[0])
+        if not worst[0] < ATOL * (1 + 1e-6):
+            ctx.oracle_fail("%s: along a slowly veering spectrum the reconstructed moments of frequency bin %d differ from "
+                            "the input by %r >= atol" % (sm, worst[1], worst[0]), dict(rep0, entry=worst[1], moments=ms[worst[1]]))
 
 
 def eval_rot(ctx, it, impl, mod, stats):
